@@ -1,3 +1,79 @@
+// fstore-child stores ONE node through the real file backend and exits:
+//
+//	fstore-child <dir> <len> <seed> <fsize|-1> <mode>
+//
+// mode "error": RLIMIT_FSIZE=fsize, SIGXFSZ left to the Go runtime (ignored) =>
+// the write stops at byte fsize and returns EFBIG to the library.
+// mode "crash": additionally SIGXFSZ is reset to SIG_DFL, so the kernel kills
+// the process at exactly that byte. mode "plain": no limit (used under strace).
+// Exit status: 0 Store returned nil, 3 Store returned an error. The Store call
+// is bracketed by two getppid() syscalls so a tracer can find it.
 package main
 
-func main() {}
+import (
+	"context"
+	"os"
+	"runtime"
+	"strconv"
+	"syscall"
+	"unsafe"
+
+	"github.com/jrhy/mast/persist/file"
+
+	"verif/internal/ref"
+)
+
+func init() { runtime.LockOSThread() }
+
+func Payload(n int, seed uint64) []byte {
+	b := make([]byte, n)
+	x := seed*0x9e3779b97f4a7c15 + 1
+	for i := range b {
+		x ^= x << 13
+		x ^= x >> 7
+		x ^= x << 17
+		b[i] = byte(x >> 24)
+	}
+	return b
+}
+
+type sigaction struct {
+	handler  uintptr
+	flags    uint64
+	restorer uintptr
+	mask     uint64
+}
+
+func main() {
+	if len(os.Args) < 6 {
+		os.Exit(2)
+	}
+	dir := os.Args[1]
+	n, _ := strconv.Atoi(os.Args[2])
+	seed, _ := strconv.ParseUint(os.Args[3], 10, 64)
+	fsize, _ := strconv.ParseInt(os.Args[4], 10, 64)
+	mode := os.Args[5]
+	b := Payload(n, seed)
+	name := ref.Name(b)
+	if fsize >= 0 {
+		lim := syscall.Rlimit{Cur: uint64(fsize), Max: uint64(fsize)}
+		if err := syscall.Setrlimit(syscall.RLIMIT_FSIZE, &lim); err != nil {
+			os.Exit(2)
+		}
+	}
+	if mode == "crash" {
+		var sa sigaction // SIG_DFL
+		_, _, e := syscall.RawSyscall6(syscall.SYS_RT_SIGACTION, uintptr(syscall.SIGXFSZ), uintptr(unsafe.Pointer(&sa)), 0, 8, 0, 0)
+		if e != 0 {
+			os.Exit(2)
+		}
+	}
+	p := file.NewPersistForPath(dir)
+	syscall.Getppid()
+	err := p.Store(context.Background(), name, b)
+	syscall.Getppid()
+	if err != nil {
+		os.Exit(3)
+	}
+	os.Exit(0)
+}
